@@ -664,10 +664,13 @@ class Agent(object):
             comp.stop()
             if not _is_technical(comp.name):
                 try:
-                    self.discovery.unregister_computation(comp.name)
+                    self.discovery.unregister_computation(comp.name, self.name)
                 except UnreachableAgent:
                     # when stopping the agent, the orchestrator / directory might have
                     # already left.
+                    pass
+                except ValueError:
+                    # the computation is already known to be hosted on another agent
                     pass
 
         if self._ui_server:
